@@ -64,6 +64,44 @@ func runC13(r *Report) {
 		r.Fail("R-C13-4", 0, fmt.Sprintf("only %d encoded list members found in the redis list family (SetList, AppendToList, RemoveFromList confirmed by hand)", n), redisPkg, "floor:list-encoding")
 	}
 
+	// Exists answers the lookup: true only for a present, unexpired entry; false (without error) only
+	// for an absent map / absent key / expired entry
+	if ex := r.need("R-C13-5", memPkg, "Storage.Exists"); ex != nil {
+		for _, ret := range Returns(ex) {
+			v, isC := ConstBool(RetVal(ret, 0))
+			if !isC || RetErrKind(ret) != "nil" {
+				r.Fail("R-C13-5", ret.Pos(), "Exists returns a verdict that is not a constant decided by the lookup", "Storage.Exists", "verdict")
+				continue
+			}
+			present, absent, expired, live := false, false, false, true
+			for _, ft := range Facts(ret.Block()) {
+				if exx, ok := stripValue(ft.Cond).(*ssa.Extract); ok && exx.Index == 1 {
+					if _, isL := exx.Tuple.(*ssa.Lookup); isL {
+						if ft.Pol {
+							present = true
+						} else {
+							absent = true
+						}
+					}
+				}
+				if x, isnil, ok := ft.FactNil(); ok && isnil {
+					if _, f, _, isF := FieldOf(x); isF && f == "data" {
+						absent = true
+					}
+				}
+				if c, ok := stripValue(ft.Cond).(*ssa.Call); ok && CalleeOf(c).Is("time:Time.After") && ft.Pol {
+					expired = true
+					live = false
+				}
+			}
+			if v {
+				r.Ob("R-C13-5", ret.Pos(), present && live, "Exists answers true only for a key found in the map and not on the expired edge", "Storage.Exists", "verdict:true")
+			} else {
+				r.Ob("R-C13-5", ret.Pos(), absent || expired, "Exists answers false only for an absent map, an absent key or an expired entry", "Storage.Exists", "verdict:false")
+			}
+		}
+	}
+
 	// ---- R-C13-5 expired entries are absent / expiry-driven deletes re-validate ---
 	for _, f := range r.P.FuncsIn(memPkg) {
 		checkExpiredAbsent(r, f)
